@@ -84,6 +84,24 @@ for _pid, _txt in (
                     "alphabet up to the tier's bound, the repository's spokfiles with every truncation, truncations of generated programs and loose layouts "
                     "they are fed to the real lexer, parser and printer in watched child processes. TLC evaluates " + _txt + ".", SYNTB, "5 " + _pid)
 
+CLITB = TB + ("the built binary run as uid nobody in a sandbox HOME with a scrubbed environment; side-effect log as ground truth of execution; "
+              "snapshots compare path, kind, mode and SHA-256. ")
+CLITECH = ("abstract CLI transition system in TLA+ (SpokCLI.tla) model-checked for its frame facts and used to enumerate scenarios; the built binary run "
+           "on every scenario in a sandbox; TLC evaluates the Conforms relation on recorded before/after tree snapshots, outputs and side-effect logs")
+for _pid, _txt in (
+    ("C09", "Conforms_C09: an executed failing command makes the invocation exit non-zero and name a failing task under plain/--quiet/--json/--force, and the failed "
+            "task executes again in a later run; the history clause Inv_C09b is also checked on the exhaustively explored real state graph of the run family"),
+    ("C12", "Conforms_C12: without a clean task exactly the designated outputs (literal, named, glob) and the cache directory disappear and nothing else changes; the "
+            "spokfile, its directory and every ancestor survive whatever the outputs evaluate to; with a clean task only that task runs"),
+    ("C13", "Conforms_C13: every command's interpolated text equals the declarative substitution and `echo \"$NAME\"` prints the spokfile value whatever the ambient "
+            "environment and .env contain; a failing exec is an error and nothing runs"),
+    ("C19", "Conforms_C19: every changed path is allowed by MayWrite(action, state) -- the cache directory, the spokfile under --fmt when it parses and loads, a new "
+            "spokfile and an appended .gitignore under --init -- for every TLC-enumerated (spokfile kind x action x cwd x .gitignore x .env x cache) scenario"),
+    ("C20", "Conforms_C20: the --json document lists exactly the run's tasks in execution order with skipped flags and per-command text/stdout/stderr/status, --quiet "
+            "prints nothing, --show lists every task once sorted with its docstring, --vars every variable with its value, no arguments runs default or lists")):
+    CHECKS[_pid] = ("SpokCLI", CLITECH, "SpokCLI.tla's abstract machine is model-checked (FmtOnlyWhenValid, CacheOnlyByRuns, ReadOnlyActions); scenarios are built as real "
+                    "project trees and the built binary is run on each as an unprivileged user. TLC evaluates " + _txt + ".", CLITB, "5 " + _pid)
+
 NOT_YET = {}
 
 
